@@ -137,16 +137,26 @@ CLAIMED["C07"] = {
 }
 CLAIMED["C14"] = {
     "design_ref": "DESIGN.md §4 C14, notes/C14.md",
-    "text": "Proved in Coq on an executable model of TxNotifier for all call sequences within the reorg safety limit: "
-            "the spend height hint never exceeds the spend height, cached spend details are always those of the active "
-            "chain; exactness is refuted when rescan results arrive with no registered client (Coq witnesses; known "
-            "finding C14-F1 reproduced on the real code). The confirmation-side clauses (exact, reorg-before-reconfirm, "
-            "conf hint) and the per-client event-stream clauses are NOT yet proved: they are decided by differential "
-            "correspondence against the real TxNotifier + bbolt HeightHintCache (0 mismatches; exhaustive depth-4 "
-            "histories in thorough) and by a predicate on the implementation trace.",
-    "note": "partial: conf-side invariant not proved; per-request projection; obligations on hints, rescan "
-            "truthfulness and Connect/Notify pairing are stated in the theorems. Trusted: Coq kernel, harness, python predicate.",
-    "technique": "Coq invariant by induction over call sequences + go test -overlay correspondence + implementation-trace predicate",
+    "text": "Proved in Coq on an executable per-request model of TxNotifier (mirroring /repo incl. repair af6371e), for "
+            "all call sequences, clients, confirmation depths and reorg shapes within the reorg safety limit: the "
+            "confirm/spend height hint never exceeds the confirmation/spend height on the active chain; cached details are "
+            "always the active chain's block/spender, with or without registered clients; for every registered client the "
+            "dispatched flag equals 'last Confirmed/Spend not followed by NegativeConf/Reorg', its latest un-negated "
+            "Confirmed / un-reorged Spend names the active chain's block/spender, it has been told whenever the tx has "
+            ">= N confirmations (the outpoint is spent) on the active chain with the rescan finished and no NotifyHeight "
+            "pending, every Confirmed is emitted only with >= N confirmations on the active chain, and no client ever gets "
+            "two Confirmed/Spend without a NegativeConf/Reorg in between. The former C14-F1 history (rescan result "
+            "arriving with zero clients, then reorg; found by this check, repaired in /repo) is proved to end clean. "
+            "Refuted with a Coq witness replayed on the real code: '>= N confirmations' does not persist after a partial "
+            "reorg (no NegativeConf; pinned by lnd's own TestTxNotifierReorgPartialConfirmation; documented, not a "
+            "finding). Tied per run by differential correspondence against the real TxNotifier + bbolt HeightHintCache "
+            "(0 mismatches; exhaustive depth-4 histories in thorough) and an independent predicate on the implementation trace.",
+    "note": "Per-request projection (request independence exercised, not proved). Hypotheses of the theorems: client "
+            "hints <= actual height, truthful rescan answers, ConnectTip/NotifyHeight pairing, single inclusion per chain, "
+            "reorg depth < safety limit, unwatched inclusions at or above the cached hint; model-predicted Go panics "
+            "excluded. Trusted: Coq kernel, harness, python predicate. No axioms.",
+    "technique": "Coq invariants (state / event-log / confirm-height-queue layers) by induction over call sequences + "
+                 "go test -overlay differential correspondence + implementation-trace predicate",
 }
 
 CLAIMED["C10"] = {
@@ -259,22 +269,29 @@ CLAIMED["C15"] = {
 }
 CLAIMED["C11"] = {
     "design_ref": "DESIGN.md §4 C11, notes/C11.md",
-    "text": "Noise_XK transport (brontide/noise.go), Coq theorems with symbolic crypto: the handshake completes with "
-            "matching send/recv keys when the initiator dials the responder's real static key, and is refused for any "
-            "other key, a bad version byte, or a modified act one/two (act three: harness only); any interleaving of "
+    "text": "Noise_XK transport and brontide.Conn (brontide/noise.go, conn.go), Coq theorems with symbolic crypto: the "
+            "handshake completes with matching send/recv keys when the initiator dials the responder's real static key, "
+            "and is refused for any other key, a bad version byte, a modified act one/two, and any act three that is not "
+            "byte for byte the honest act three of the static key the responder then records; any interleaving of "
             "WriteMessage and partial Flush calls puts exactly the honest encoding on the wire and the peer reads the "
-            "same messages in order across any number of key rotations; (epoch, nonce) pairs are strictly increasing, "
-            "hence never reused; under an ideal AEAD the first read reaching any modified, truncated, reordered, replayed "
-            "or reflected ciphertext fails and every earlier read returns exactly what was sent. Tie: real Machine pairs "
-            "with seeded keys, scripted short-writing writers, >= 3 rotations each way, tampered pipes; per-op results, "
-            "plaintexts, Flush accounting and (epoch, nonce) counters compared with a tagging-AEAD instantiation "
-            "(vm_compute) + independent trace predicate; brontide.Conn by predicate only.",
-    "note": "Crypto is symbolic: functional/ideal AEAD, no_forgery (INT-CTXT), ECDH/HKDF injectivity are stated "
-            "hypotheses of the theorems that use them. C11_handshake_rejects_partial does not cover act-three "
-            "modifications. Reads after a failed read are not claimed (Machine is not poisoned; lnd disconnects). "
-            "Conn/Listener/deadlines exercised only. Trusted: Coq kernel, harness, python predicate.",
-    "technique": "Coq proofs over an executable model with symbolic crypto + differential correspondence against a "
-                 "tagging-AEAD instantiation + trace predicate",
+            "same messages in order across any number of key rotations; (epoch, nonce) pairs strictly increase, hence "
+            "are never reused; under an ideal AEAD the first read reaching any modified, truncated, reordered, replayed "
+            "or reflected ciphertext fails and every earlier read returns exactly what was sent; for every sequence of "
+            "Conn.Write (any length; 65535-byte chunking loop proved terminating) / WriteMessage / Flush against a "
+            "net.Conn that takes any number of bytes per call and may time out anywhere, the wire carries the honest "
+            "encoding of a prefix-exact record sequence, returned counts add up to the plaintext committed, and "
+            "Conn.Read with ANY sequence of buffer sizes returns those bytes in order, never across a record boundary. "
+            "Tie: real Machine pairs and real Conn pairs with seeded keys, scripted short-writing writers / net.Conns "
+            "(faults at every call index and MAC boundary, sizes around 1x/2x/3x 65535), >= 3 rotations each way, "
+            "tampered pipes; per-call results, counts, plaintexts and (epoch, nonce) counters compared with a "
+            "tagging-AEAD instantiation (vm_compute) + independent trace predicates.",
+    "note": "Crypto is symbolic: functional/ideal AEAD, key binding, no_forgery (INT-CTXT), ECDH/HKDF injectivity, parse "
+            "injective on 33-byte strings are stated hypotheses of the theorems that use them. Reads after a failed read "
+            "are not claimed (Machine is not poisoned; lnd disconnects). The net.Conn is a list of answers to Write calls "
+            "and an in-memory byte stream; real deadlines, Listener, Dial, goroutines are runtime (exercised only). "
+            "Trusted: Coq kernel, harness, python predicate.",
+    "technique": "Coq proofs (induction, simulation, loop invariant) over an executable model with symbolic crypto + "
+                 "differential correspondence against a tagging-AEAD instantiation + trace predicate",
 }
 
 CLAIMED["C12"] = {
